@@ -24,6 +24,7 @@ RULE = (
 )
 ASSUMPTIONS = c05.ASSUMPTIONS
 TRUSTED = []
+NOT_THEOREMS = ['W(R(W(R x))) = W(R x) and verbatim default lines: evaluated per case']
 EXHAUSTIVE = {"quick": False, "thorough": False}
 
 
